@@ -21,7 +21,8 @@ Rules
              nothing else written, *saveptr, returned token start)
   R-FIND     memchr memrchr strchr strrchr strchrnul strspn strcspn strpbrk strstr strcasestr : first / last matching
              position, stated with per-position facts
-  R-ORDER    memcmp strcmp strncmp : sign of the result follows the first differing byte
+  R-ORDER    memcmp strcmp strncmp : sign of the result follows the first differing byte (as unsigned char);
+             strcasecmp strncasecmp : ... the first position whose lower-case folds differ
 An instance is (rule:clause, function, clause-name); `:analysed` instances carry the floors: a scenario that cannot be
 analysed exactly (opaque value, undecided loop) removes the function's `:analysed` instance -> exit 2, never a verdict.
 """
@@ -33,11 +34,16 @@ from absval import PtrVal, IntVal, CondVal, NULL, TOP, State, mk_const
 from lin import Lin
 
 DIR = 'compat/libc/string'
-UNITS = ['memchr', 'memcmp', 'memcpy', 'memmove', 'memrchr', 'memset', 'strcasestr', 'strcat', 'strchr', 'strchrnul',
-         'strcmp', 'strcpy', 'strcspn', 'strdup', 'strlcpy', 'strlen', 'strlwr', 'strncat', 'strncmp', 'strncpy',
+UNITS = ['memchr', 'memcmp', 'memcpy', 'memmove', 'memrchr', 'memset', 'strcasecmp', 'strcasestr', 'strcat', 'strchr', 'strchrnul',
+         'strcmp', 'strcpy', 'strcspn', 'strdup', 'strlcpy', 'strlen', 'strlwr', 'strncasecmp', 'strncat', 'strncmp', 'strncpy',
          'strndup', 'strnlen', 'strpbrk', 'strrchr', 'strspn', 'strstr', 'strtok', 'strupr']
 G = 4                      # guard bytes on both sides of every buffer (writes there are frame violations)
 EXACT_HINTS = ('carry', 'quot', 'squot', 'b', 'zx')
+
+
+def X(tier):
+    """the thorough tier widens every size range"""
+    return 1 if tier == 'thorough' else 0
 
 
 class Unresolved(Exception):
@@ -63,7 +69,7 @@ class ByteInterp(Interp):
         self.events = []              # accesses outside a buffer (the path ends there)
         self.fold_mode = 'sym'
         self.max_iter = 400
-        self.max_loop_states = 80
+        self.max_loop_states = 600
         for n in UNITS:
             self.externals[n] = self.cross(n)
         self.externals['strtok_r'] = self.cross('strtok_r', 'strtok')
@@ -71,7 +77,6 @@ class ByteInterp(Interp):
         self.externals['free'] = lambda interp, st, i, args: [(st, None)]
         self.externals['tolower'] = ext_fold('lower')
         self.externals['toupper'] = ext_fold('upper')
-        self.store_hook = None
 
     # ---- calls into other units --------------------------------------------------------------------------------
     def cross(self, name, unit=None):
@@ -473,8 +478,16 @@ def ext_fold(which):
                 raise Unresolved('%s of a value that is not a character' % which)
         if ub.is_const() and ub.c == 0:
             return [(st, mk_const(32, 0))]
+        out = []
         if not (st.cons.entails_le(1, ub) or st.known_diseq(ub, 0)):
-            raise Unresolved('%s of a character that may be NUL' % which)
+            # a byte that may be NUL: NUL folds to NUL, anything else to a non-zero value
+            z = st.fork()
+            z.cons.add_eq(ub, 0)
+            if not interp.infeasible(z, ub, Lin(0)):
+                out.append((z, mk_const(32, 0)))
+            st.cons.add_le(1, ub)
+            if interp.infeasible(st, ub, Lin(0)):
+                return out
         k = ('fold', which, ub.key())
         r = st.conv.get(k)
         if r is None:
@@ -483,7 +496,7 @@ def ext_fold(which):
             st.cons.add_le(r.s, 255)
             st.add_diseq(r.s, 0)
             st.conv[k] = r
-        return [(st, r)]
+        return out + [(st, r)]
     return ext
 
 
@@ -860,7 +873,7 @@ WORD_N = (31, 32, 33, 40, 47, 63, 64, 73)        # around the thresholds of memc
 
 def chk_memcpy(bk, mods, tier):
     rule, fn = 'R-COPY', 'memcpy'
-    sizes = list(range(0, 10)) + list(WORD_N)
+    sizes = list(range(0, 10 + 6 * X(tier))) + list(WORD_N) + ([95, 96, 104, 129] if X(tier) else [])
     for n in sizes:
         for (pd, ps) in ((G, G), (G + 3, G + 5)) if n in (5, 33) else ((G, G),):
             def one(n=n, pd=pd, ps=ps):
@@ -877,7 +890,7 @@ def chk_memcpy(bk, mods, tier):
 
 def chk_memmove(bk, mods, tier):
     rule, fn = 'R-COPY', 'memmove'
-    cases = [(n, d) for n in range(0, 10) for d in range(-4, 5)]
+    cases = [(n, d) for n in range(0, 10 + 3 * X(tier)) for d in range(-4 - 2 * X(tier), 5 + 2 * X(tier))]
     cases += [(n, d) for n in (32, 41) for d in (-8, -3, -1, 1, 3, 8, 16)]
     for (n, d) in cases:
         def one(n=n, d=d):
@@ -905,7 +918,7 @@ def chk_memmove(bk, mods, tier):
 
 def chk_memset(bk, mods, tier):
     rule, fn = 'R-FILL', 'memset'
-    for n in list(range(0, 10)) + [17, 33, 40]:
+    for n in list(range(0, 10 + 6 * X(tier))) + [17, 33, 40]:
         for cls in ('ascii', 'high', 'neg', 'wide'):
             if n > 9 and cls != 'high':
                 continue
@@ -928,7 +941,7 @@ CLS_TXT = {'ascii': 'in 0..127', 'high': 'in 128..255', 'neg': 'a negative char 
 
 def chk_strcpy(bk, mods, tier):
     rule, fn = 'R-COPY', 'strcpy'
-    for ln in range(0, 7):
+    for ln in range(0, 7 + 6 * X(tier)):
         def one(ln=ln):
             sc = Scn(mods, 'strcpy', 'strcpy(dst, src) with strlen(src) == %d' % ln)
             d = sc.buf('dst', ln + 1)
@@ -943,8 +956,8 @@ def chk_strcpy(bk, mods, tier):
 
 def chk_strncpy(bk, mods, tier):
     rule, fn = 'R-COPY', 'strncpy'
-    for ln in range(0, 5):
-        for n in range(0, 8):
+    for ln in range(0, 5 + 2 * X(tier)):
+        for n in range(0, 8 + 3 * X(tier)):
             def one(ln=ln, n=n):
                 sc = Scn(mods, 'strncpy', 'strncpy(dst, src, %d) with strlen(src) == %d' % (n, ln))
                 d = sc.buf('dst', n)
@@ -960,8 +973,8 @@ def chk_strncpy(bk, mods, tier):
 
 def chk_strlcpy(bk, mods, tier):
     rule, fn = 'R-COPY', 'strlcpy'
-    for ln in range(0, 5):
-        for size in range(0, 8):
+    for ln in range(0, 5 + 2 * X(tier)):
+        for size in range(0, 8 + 3 * X(tier)):
             def one(ln=ln, size=size):
                 sc = Scn(mods, 'strlcpy', 'strlcpy(dst, src, %d) with strlen(src) == %d' % (size, ln))
                 d = sc.buf('dst', size)
@@ -981,8 +994,8 @@ def chk_strlcpy(bk, mods, tier):
 
 def chk_strcat(bk, mods, tier):
     rule, fn = 'R-COPY', 'strcat'
-    for ld in range(0, 4):
-        for ln in range(0, 5):
+    for ld in range(0, 4 + X(tier)):
+        for ln in range(0, 5 + 2 * X(tier)):
             def one(ld=ld, ln=ln):
                 sc = Scn(mods, 'strcat', 'strcat(dst, src) with strlen(dst) == %d, strlen(src) == %d' % (ld, ln))
                 d = sc.cstr('dst', ld, spare=ln)
@@ -999,8 +1012,8 @@ def chk_strcat(bk, mods, tier):
 def chk_strncat(bk, mods, tier):
     rule, fn = 'R-COPY', 'strncat'
     for ld in range(0, 3):
-        for ln in range(0, 7):
-            for n in range(0, 10):
+        for ln in range(0, 7 + 3 * X(tier)):
+            for n in range(0, 10 + 4 * X(tier)):
                 if ld == 1 and (ln + n) % 2:
                     continue            # thinned: the position of the old terminator does not interact with n
 
@@ -1022,7 +1035,7 @@ def chk_strncat(bk, mods, tier):
 
 def chk_strdup(bk, mods, tier):
     rule, fn = 'R-COPY', 'strdup'
-    for ln in range(0, 6):
+    for ln in range(0, 6 + 6 * X(tier)):
         def one(ln=ln):
             sc = Scn(mods, 'strdup', 'strdup(s) with strlen(s) == %d' % ln)
             s = sc.cstr('s', ln, spare=2)
@@ -1051,7 +1064,7 @@ def chk_strdup(bk, mods, tier):
 
 def chk_strndup(bk, mods, tier):
     rule, fn = 'R-COPY', 'strndup'
-    cases = [(ln, size, True) for ln in range(0, 5) for size in range(0, 7)]
+    cases = [(ln, size, True) for ln in range(0, 5 + 2 * X(tier)) for size in range(0, 7 + 2 * X(tier))]
     cases += [(size, size, False) for size in range(0, 5)]       # source not terminated inside its `size` bytes
     for (ln, size, term) in cases:
         def one(ln=ln, size=size, term=term):
@@ -1092,7 +1105,7 @@ def chk_strndup(bk, mods, tier):
 def chk_case(bk, mods, tier):
     rule = 'R-INPLACE'
     for fn, lo, hi, delta in (('strlwr', 65, 90, 32), ('strupr', 97, 122, -32)):
-        for ln in range(0, 4):
+        for ln in range(0, 4 + X(tier)):
             def one(fn=fn, lo=lo, hi=hi, delta=delta, ln=ln):
                 sc = Scn(mods, fn, '%s(s) with strlen(s) == %d' % (fn, ln))
                 sc.it.fold_mode = 'ascii'
@@ -1135,9 +1148,9 @@ def tok_reference(T, s, ln, dl, dn, start):
 def chk_strtok(bk, mods, tier):
     rule = 'R-INPLACE'
     cases = []
-    for ln in range(0, 5):
+    for ln in range(0, 5 + X(tier)):
         for dn in range(0, 3):
-            if ln == 4 and dn == 2:
+            if ln >= 4 and dn == 2:
                 continue
             cases.append(('strtok_r', ln, dn, 'str', 0))
     for ln in range(0, 4):
@@ -1243,7 +1256,7 @@ def chk_chr(bk, mods, tier):
         key = {'first': 'returns-the-FIRST-position-whose-byte-equals-(unsigned-char)c-or-NULL',
                'last': 'returns-the-LAST-position-whose-byte-equals-(unsigned-char)c-or-NULL',
                'first-or-end': 'returns-the-FIRST-position-whose-byte-equals-(char)c-or-the-terminator'}[which]
-        for n in range(0, 6 if kind == 'mem' else 5):
+        for n in range(0, (7 if kind == 'mem' else 6) + X(tier)):
             for cls in ('ascii', 'high', 'neg', 'wide'):
                 def one(fn=fn, kind=kind, which=which, n=n, cls=cls, key=key):
                     if kind == 'mem':
@@ -1293,7 +1306,7 @@ def chk_span(bk, mods, tier):
         key = {'strspn': 'returns-the-length-of-the-longest-prefix-made-of-characters-of-the-set',
                'strcspn': 'returns-the-length-of-the-longest-prefix-free-of-characters-of-the-set',
                'strpbrk': 'returns-the-FIRST-character-that-belongs-to-the-set-or-NULL'}[fn]
-        for ln in range(0, 4):
+        for ln in range(0, 5 + X(tier)):
             for m in range(0, 3):
                 def one(fn=fn, ln=ln, m=m, key=key):
                     sc = Scn(mods, fn, '%s(s, set) with strlen(s) == %d, strlen(set) == %d' % (fn, ln, m))
@@ -1343,9 +1356,9 @@ def chk_strstr(bk, mods, tier):
     for fn in ('strstr', 'strcasestr'):
         key = 'returns-the-FIRST-position-where-the-needle-matches%s-or-NULL' % \
             ('-case-insensitively' if fn == 'strcasestr' else '')
-        for ln in range(0, 5):
+        for ln in range(0, 6 + X(tier)):
             for m in range(0, 4):
-                if ln + m > 6 or (fn == 'strcasestr' and ln + m > 5):
+                if ln + m > 7 + X(tier) or (fn == 'strcasestr' and ln + m > 6 + X(tier)):
                     continue
 
                 def one(fn=fn, ln=ln, m=m, key=key):
@@ -1394,17 +1407,18 @@ def order_ref(T, seq_a, seq_b):
     return ref
 
 
-def check_sign(bk, rule, fn, sc, T, rv, ref):
+def check_sign(bk, rule, fn, sc, T, rv, ref,
+               key='sign-of-the-result-follows-the-first-differing-byte-compared-as-unsigned-char', folds=False):
     if not isinstance(rv, IntVal):
         raise Unresolved('the result is not an integer')
     for (T2, (want, x, y)) in explore(T, ref):
         r = T2.as_s(rv)
         if r is None:
             r = T2.force_s(rv)
-        if not exact_form(r):
+        if not exact_form(r, folds):
             raise Unresolved('the result has a value the analysis cannot name (%r)' % (r,))
         ok = {'lt': T2.cons.entails_le(r, -1), 'gt': T2.cons.entails_le(1, r), 'eq': T2.cons.entails_eq(r, 0)}[want]
-        bk.note(rule + ':result', fn, 'sign-of-the-result-follows-the-first-differing-byte-compared-as-unsigned-char', ok,
+        bk.note(rule + ':result', fn, key, ok,
                 None if ok else '%s: the result %s is not %s although %s' % (
                     sc.desc, show(r), {'lt': 'negative', 'gt': 'positive', 'eq': 'zero'}[want],
                     'all compared bytes are equal' if want == 'eq' else
@@ -1413,7 +1427,7 @@ def check_sign(bk, rule, fn, sc, T, rv, ref):
 
 def chk_cmp(bk, mods, tier):
     rule = 'R-ORDER'
-    for n in range(0, 5):
+    for n in range(0, 7 + 2 * X(tier)):
         def one(n=n):
             sc = Scn(mods, 'memcmp', 'memcmp(a, b, %d)' % n)
             a = sc.buf('a', n)
@@ -1456,9 +1470,42 @@ def chk_cmp(bk, mods, tier):
 
 
 
+def chk_casecmp(bk, mods, tier):
+    """strcasecmp / strncasecmp: the sign follows the first position whose lower-case folds differ (tolower is an
+    uninterpreted function of the character: equal characters fold equally, NUL folds to NUL only)"""
+    rule = 'R-ORDER'
+    key = 'sign-of-the-result-follows-the-first-position-whose-lower-case-folds-differ'
+    for fn in ('strcasecmp', 'strncasecmp'):
+        for la in range(0, 3 + X(tier)):
+            for lb in range(0, 3 + X(tier)):
+                for n in (range(0, 4) if fn == 'strncasecmp' else (None,)):
+                    def one(fn=fn, la=la, lb=lb, n=n):
+                        sc = Scn(mods, fn, '%s(a, b%s) with strlen(a) == %d, strlen(b) == %d'
+                                 % (fn, '' if n is None else ', %d' % n, la, lb))
+                        a = sc.cstr('a', la, spare=1)
+                        b = sc.cstr('b', lb, spare=1)
+                        rets = sc.run(fn, [a.ptr(), b.ptr()] + ([] if n is None else [mk_const(64, n)]))
+                        returns_of(bk, rule, fn, sc, rets)
+                        k = min(la, lb) + 1
+                        if n is not None:
+                            k = min(k, n)
+                        for (T, rv) in rets:
+                            def ref(eq, lt, T=T):
+                                for i in range(k):
+                                    x, y = fold_of(T, 'lower', a.at(i)), fold_of(T, 'lower', b.at(i))
+                                    if not eq(x, y):
+                                        return ('lt', x, y) if lt(x, y) else ('gt', x, y)
+                                return ('eq', None, None)
+                            check_sign(bk, rule, fn, sc, T, rv, ref, key, folds=True)
+                            check_mem(bk, rule, fn, sc, T, {}, set(), 'nothing-is-written')
+                    scenario(bk, rule, fn, one)
+
+
 CHECKERS = [chk_memcpy, chk_memmove, chk_memset, chk_strcpy, chk_strncpy, chk_strlcpy, chk_strcat, chk_strncat,
-            chk_strdup, chk_strndup, chk_case, chk_strtok, chk_chr, chk_span, chk_strstr, chk_cmp]
+            chk_strdup, chk_strndup, chk_case, chk_strtok, chk_chr, chk_span, chk_strstr, chk_cmp, chk_casecmp]
 UNIT_OF = {'strtok_r': 'strtok'}
+# (rule, functions that must have been analysed exactly, distinct content / result clauses)
+FLOORS = [('R-COPY', 9, 9), ('R-FILL', 1, 1), ('R-INPLACE', 4, 4), ('R-FIND', 10, 10), ('R-ORDER', 5, 5)]
 
 
 def compile_units(repo):
@@ -1477,9 +1524,12 @@ def compile_units(repo):
     return mods
 
 
-def run_ext(rep, repo, tier, only=None):
+def run_ext(rep, repo, tier, only=None, mods=None):
+    """called at the end of c08.run; `mods` may be the dict unit name -> Module that c08.run compiled (same flags and
+    inlining), otherwise the units are compiled here"""
     import absint
-    mods = compile_units(repo)
+    if mods is None or any(n not in mods for n in UNITS):
+        mods = compile_units(repo)
     bk = Book()
     saved = absint.MAX_STATES
     absint.MAX_STATES = 600        # the paths of a scenario are enumerated, not merged (engine wish: a per-Interp limit)
@@ -1491,4 +1541,23 @@ def run_ext(rep, repo, tier, only=None):
     finally:
         absint.MAX_STATES = saved
     bk.flush(rep, mods, UNIT_OF)
+    rep.explanation += (
+        ' CONTENTS (c08_content): byte-identity analysis on small concrete sizes with one symbol per byte position - every '
+        'byte of the destination of memcpy/memmove (all overlap offsets -4..4, word and byte paths)/memset/strcpy/strncpy/'
+        'strlcpy/strcat/strncat/strdup/strndup/strlwr/strupr/strtok(_r) equals the byte the definition prescribes and no '
+        'other byte is stored to; memchr/memrchr/strchr/strrchr/strchrnul/strspn/strcspn/strpbrk/strstr/strcasestr return '
+        'the first/last matching position and memcmp/strcmp/strncmp (strcasecmp/strncasecmp: after folding) a result whose '
+        'sign follows the first differing byte, '
+        'for every content of strings/buffers of length 0..6 (symbolic bytes, finite case analysis of the comparisons). '
+        'Not decided: lengths beyond the enumerated ones, locale-dependent tolower/toupper.')
+    rep.assumptions += ['content clauses: tolower/toupper are functions of the character (ASCII map where a folded '
+                        'character is stored); malloc returns a fresh block of the requested size or NULL',
+                        'content clauses are decided for the enumerated small sizes (n <= 9 and around the word-path '
+                        'thresholds 32/64, string lengths <= 6, overlap offsets -4..4 and +-8/16)']
+    rep.extra['c08_content'] = {'scenarios': sum(bk.scen.values()), 'paths': sum(bk.paths.values())}
+    for rule, n_fn, n_cl in FLOORS:
+        rep.floor(rule + ':analysed', n_fn)
+        rep.floor(rule + (':result' if rule in ('R-FIND', 'R-ORDER') else ':dest'), n_cl)
+        rep.floor(rule + ':frame', 2 * n_fn)
+        rep.floor(rule + ':range', 2 * n_fn)
     return bk
